@@ -2,7 +2,7 @@
    ExtrOcamlBasic only. *)
 From V.lib Require Import Base.
 From V.c07 Require Import C07Model C07Spec C07Aes.
-From V.c06 Require Import C06Model C06InitModel C06SencModel C06TrexModel C06TimingModel C06SinfModel.
+From V.c06 Require Import C06Model C06InitModel C06SencModel C06TrexModel C06TimingModel C06SinfModel C06MultiModel.
 Require Import ExtrOcamlBasic.
 Separate Extraction
   ssp scheme tkind tbox mchild frag
@@ -14,4 +14,5 @@ Separate Extraction
   sizing sample_sizes split_samples senc_calc_size senc_encode saiz_encode saio_encode senc_parse traf_senc traf_senc_seig senc_of_r
   tsample trun_t tfhd_t trex_t add_sample_defaults fragment_meta trun_encode_body trun_decode_body set_data_offset
   protect_entry protect_entry_bytes unprotect_entry_bytes sinf_decode sinf_d children_of box_type box_payload be be_bytes
+  xtraf xchild xfrag tinfo decrypt_multi xmoof_size xbox_size
   Z.of_N.  (* Z.of_N only so that BinNums.coq_Z exists for ocaml/vx.ml *)
